@@ -60,9 +60,32 @@ package restful
 //@ modifies nothing
 
 //@ func (CurlyRouter).computeWebserviceScore
-//@ props C02 C03
+//@ props C02 C03 C18
+//@ requires wf: wfRoot(tokens)
+//@ ensures matches: result0 == rootAdmits(tokens, requestTokens)
+//@ ensures score: result0 ==> result1 == rootScore(tokens, len(tokens))
 //@ nopanic
-//@ loop 0 invariant 0 <= i
+//@ modifies nothing
+//@ opt tokens.tokens ["a","b","","{v}","{v:[0-9]+}"]
+//@ opt maxlen.tokens 2
+//@ opt tokens.requestTokens ["a","b","","7"]
+//@ opt maxlen.requestTokens 3
+//@ loop 0 invariant range: 0 <= i && i <= len(tokens)
+//@ loop 0 invariant admitted: forall(0, i, func(k int) bool { return rootTokAdmits(tokens[k], requestTokens[k]) })
+//@ loop 0 invariant score: score == rootScore(tokens, i)
+
+//@ func (sortableCurlyRoutes).Less
+//@ props C03
+//@ requires 0 <= i && i < len(s) && 0 <= j && j < len(s)
+//@ ensures key: result == curlyBefore(s[i], s[j])
+//@ nopanic
+//@ modifies nothing
+
+//@ func (sortableCurlyRoutes).Len
+//@ props C03
+//@ ensures result == len(s)
+//@ nopanic
+//@ modifies nothing
 
 //@ func untokenizePath
 //@ props C04
